@@ -22,6 +22,25 @@ check("C12", "exploration",
       "self-checked at two resolutions and against the Eibert-Hansen closed form on every run).",
       "exhaustive enumeration of (rule, order, monomial/remap) tuples against exact values")
 
+check("C11", "model_checking",
+      "Explicit-state search over grids: states are real Grid objects reached from catalogue meshes and from ALL sub-complexes of "
+      "small base meshes by bounded sequences of constructor steps (relabel, dtype/order, refine, barycentric, union, segment "
+      "extraction); in every state every topology/geometry table is compared with a brute-force O(n^2) reference, and every "
+      "constructor step with the statement of what it preserves. All 9x local edge classes and 9 vertex classes are asserted covered.",
+      "DESIGN.md 4/C11",
+      "Trusted: the set-based reference topology (bex/models/topo_ref.py) and textbook geometry formulas. Duplicate elements are outside the alphabet.",
+      "explicit-state BFS over constructor histories on the real Grid class, invariant = agreement with reference topology")
+
+check("C09", "model_checking",
+      "Exhaustive lattice of spaces (mesh x kind x every domain-subset / every element subset on small meshes x all option "
+      "combinations x swapped normals); each constructed space is a state whose every global basis function is evaluated through "
+      "the public path and compared with the reference meaning of the options: conformity across interior edges, partition of unity, "
+      "local2global/global2local coherence, entity attachment, DOF count, linear independence.",
+      "DESIGN.md 4/C09 and Appendix B.1",
+      "Trusted: reference semantics of segments/include_boundary_dofs/truncate_at_segment_edge (Appendix B.1); two recorded findings "
+      "(empty selections, truncated BC/RBC) are listed in known_findings.json.",
+      "exhaustive enumeration of the space-option lattice on small meshes against a reference model of the spaces")
+
 ALL = ["C%02d" % i for i in range(1, 21)]
 
 
